@@ -175,13 +175,18 @@ class Ctx:
         per = max(2, min(NCPU, 16) // max(1, len(modules)))
 
         def one(mod):
-            try:
-                p = subprocess.run(["tlapm", "--threads", str(per), "--stretch", str(stretch), "--cleanfp", mod + ".tla"], cwd=wd,
-                                   capture_output=True, text=True, timeout=timeout)
-            except subprocess.TimeoutExpired:
-                raise Infra("tlapm timed out after %ss on %s" % (timeout, mod))
-            out = p.stdout + p.stderr
-            m = re.search(r"All (\d+) obligations? proved", out)
+            for attempt, st in enumerate((stretch, stretch * 3)):
+                # back-end provers run under time limits: on a busy machine an obligation can time out, so a failed
+                # module is tried once more with three times the limits (obligations already proved are remembered)
+                try:
+                    p = subprocess.run(["tlapm", "--threads", str(per), "--stretch", str(st)] + (["--cleanfp"] if attempt == 0 else []) + [mod + ".tla"],
+                                       cwd=wd, capture_output=True, text=True, timeout=timeout)
+                except subprocess.TimeoutExpired:
+                    raise Infra("tlapm timed out after %ss on %s" % (timeout, mod))
+                out = p.stdout + p.stderr
+                m = re.search(r"All (\d+) obligations? proved", out)
+                if p.returncode == 0 and m:
+                    break
             if p.returncode != 0 or not m:
                 keep = "\n".join(l for l in out.splitlines() if not l.startswith(("Called from", "Raised at")))
                 raise Infra("tlapm did not prove every obligation of %s:\n%s" % (mod, keep[-3000:]))
